@@ -184,3 +184,40 @@ pub fn catch<R>(f: impl FnOnce() -> R) -> Result<R, PanicInfo> {
 pub fn panic_in_harness(p: &PanicInfo) -> bool {
     p.location.starts_with("src/")
 }
+
+// ---------------------------------------------------------------------------------------------
+// counting allocator (DESIGN 2.5): records the largest single allocation request; never fails
+// by itself — failure is left to the real allocator.
+use std::alloc::{GlobalAlloc, Layout, System};
+use std::sync::atomic::{AtomicUsize, Ordering};
+
+pub struct CountingAlloc;
+pub static MAX_REQUEST: AtomicUsize = AtomicUsize::new(0);
+
+unsafe impl GlobalAlloc for CountingAlloc {
+    unsafe fn alloc(&self, l: Layout) -> *mut u8 {
+        MAX_REQUEST.fetch_max(l.size(), Ordering::Relaxed);
+        System.alloc(l)
+    }
+    unsafe fn dealloc(&self, p: *mut u8, l: Layout) {
+        System.dealloc(p, l)
+    }
+    unsafe fn alloc_zeroed(&self, l: Layout) -> *mut u8 {
+        MAX_REQUEST.fetch_max(l.size(), Ordering::Relaxed);
+        System.alloc_zeroed(l)
+    }
+    unsafe fn realloc(&self, p: *mut u8, l: Layout, n: usize) -> *mut u8 {
+        MAX_REQUEST.fetch_max(n, Ordering::Relaxed);
+        System.realloc(p, l, n)
+    }
+}
+
+#[global_allocator]
+static GLOBAL: CountingAlloc = CountingAlloc;
+
+pub fn reset_max_request() {
+    MAX_REQUEST.store(0, Ordering::Relaxed);
+}
+pub fn max_request() -> usize {
+    MAX_REQUEST.load(Ordering::Relaxed)
+}
